@@ -374,7 +374,9 @@ def rewrite(ot, drops, where, extra=None):
         pos = m.start() + max(len(rep), 1)
         cnt += 1
     if want is not None and cnt != want and not (want == "+" and cnt >= 1):
-      raise VxError("declared rewrite %r applied %d times in %s (expected %s): anchor lost" % (old if isinstance(old, str) else old.pattern, cnt, where, want))
+      # the text this rewrite was declared for has been edited: go on without it (Verus then sees the edited text as it is;
+      # if that is outside its subset the unit ends undecided, otherwise the contracts decide) -- never abort here
+      drops.append({"rule": rule, "at": where, "what": "ANCHOR LOST: declared rewrite %r applied %d times (expected %s)" % (old if isinstance(old, str) else old.pattern, cnt, want)})
 
 
 # ------------------------------------------------------------------ unit description
